@@ -240,6 +240,14 @@ class Meta(type):
 
 
 def gen_module(r, style=None, n_items=None, prelude=True):
+    if r.random() < 0.35:
+        # docstrings and comments whose prose uses Python keywords as ordinary words
+        with irgen.extra_words(irgen.CODE_WORDS):
+            return _gen_module(r, style, n_items, prelude)
+    return _gen_module(r, style, n_items, prelude)
+
+
+def _gen_module(r, style=None, n_items=None, prelude=True):
     names = Names(r)
     items = []
     if r.random() < 0.4:
